@@ -53,7 +53,12 @@ func editView(k *types.Kustomization) map[string]interface{} {
 	for _, p := range k.Patches {
 		t := ""
 		if p.Target != nil {
+			// name and namespace of the target, as written (no namespace and `default` are different targets: the first selects
+			// in every namespace)
 			t = p.Target.Name
+			if p.Target.Namespace != "" {
+				t += "@" + p.Target.Namespace
+			}
 		}
 		pats = append(pats, map[string]interface{}{"path": p.Path, "patch": p.Patch, "target": t})
 	}
@@ -474,6 +479,10 @@ func genEditOp(r *rand.Rand, multiline bool) editOp {
 		}
 		if p["target"] != "" {
 			argv = append(argv, "--name="+p["target"].(string))
+			if tns := pickS(r, []string{"", "", "default", "prod"}); tns != "" {
+				argv = append(argv, "--namespace="+tns)
+				p["target"] = p["target"].(string) + "@" + tns
+			}
 		}
 		if r.Intn(2) == 0 {
 			return editOp{map[string]interface{}{"op": "addPatch", "p": p}, append([]string{"add", "patch"}, argv...)}
